@@ -34,6 +34,13 @@ def register(J):
                      bounds="--delimiters argument of %d bytes with the escape \\\\t at position %d (concrete text)" % (rlen, rpos),
                      model="M-real",
                      statement="C14/C19: translating escapes in --delimiters never writes outside the static 1 KiB buffer"))
+    J.append(Job("econftool.replace_str.chain", ["C19", "C14"], "harness/tool.c", sources=[], stubs=["stubs/strstr_real.c"],
+                 unwind=16, object_bits=10, tier="T2", defines=["-DPART=5", "-I" + REPO + "/util"], tiers=Q, timeout=600,
+                 mem_gb=8, nobody_ok=[".*"], extra_cbmc=["--max-field-sensitivity-array-size", "2048"],
+                 functions=["replace_str"], bounds="the concrete argument '=\\t:\\f' run through the five translations of main()",
+                 model="M-real",
+                 statement="C19: the escapes in --delimiters are translated one after the other (the static buffer is fed "
+                           "back in) without losing the rest of the string"))
     J.append(Job("errstring", ["C13", "C04"], "harness/errstring.c", sources=["lib/econf_error.c"],
                  stubs=["stubs/snprintf_real.c"], contracts=["stubs/asprintf_shim.h"], unwind=50,
                  post_unwindset={"main.1": 1026}, tier="T1", tiers=Q, timeout=600, mem_gb=8, nobody_ok=[".*"],
